@@ -135,7 +135,7 @@ def run(cx):
                     cl[shorten(g.path + '(')[:-1].split('::', 1)[-1] if False else g.path.rsplit('::', 1)[-1]] = g
                 names = [x.rsplit('::', 1)[-1] for x in m.groups()]
                 want = [('key-proof-secure', r'^Proof::is_secure\(arg2\.1\.0\)$'),
-                        ('key-owner-equals-signer-name', r'^eq:Name\(\^SIG::input\(.*\)\.signer_name,arg2\.0\.name\)$')]
+                        ('key-owner-equals-signer-name', r'^eq:Name\((SIG::input\(.*\)\.signer_name,arg2\.0\.name|arg2\.0\.name,SIG::input\(.*\)\.signer_name)\)$')]
                 for (nm, rx), cn in zip(want, names[:2]):
                     g = cl.get(cn)
                     tr = cx.true_returns(g) if g else []
